@@ -5,6 +5,7 @@ import (
 	"fmt"
 	"os"
 	"slices"
+	"strings"
 	"sync"
 
 	"github.com/dominikbraun/graph"
@@ -131,6 +132,24 @@ func (tfg *TaskfileGraph) Merge() (*Taskfile, error) {
 	rootVertex, err := tfg.Vertex(hashes[0])
 	if err != nil {
 		return nil, err
+	}
+
+	// Every name is now relative to the root Taskfile: a reference marked as
+	// "of the root Taskfile" is an ordinary reference
+	for task := range rootVertex.Taskfile.Tasks.Values(nil) {
+		if task == nil {
+			continue
+		}
+		for _, dep := range task.Deps {
+			if dep != nil {
+				dep.Task = strings.TrimPrefix(dep.Task, NamespaceSeparator)
+			}
+		}
+		for _, cmd := range task.Cmds {
+			if cmd != nil {
+				cmd.Task = strings.TrimPrefix(cmd.Task, NamespaceSeparator)
+			}
+		}
 	}
 
 	return rootVertex.Taskfile, nil
